@@ -342,6 +342,38 @@ fn constants<F: RefField>(fails: &mut Vec<Fail>, gen: u128, two_adicity: u32, fa
     if u128::from_le_bytes(le) != p { bad("get_modulus_le_bytes", format!("{:x}", p), hex_bytes(&mb)); }
 }
 
+/// byte-slice conversions (`TryFrom<&[u8]>`, `Randomizable::from_random_bytes`, `read_from_bytes`): accept exactly the
+/// canonical little-endian encodings of residues < p, for every value in the gaps [p, 2^k) as well
+fn conv_bytes<F: RefField + winter_utils::Randomizable>(r: &mut Rng, fails: &mut Vec<Fail>)
+where for<'a> F: TryFrom<&'a [u8]> {
+    let p = F::P;
+    let nb = F::ELEMENT_BYTES;
+    let top: u128 = if nb == 16 { u128::MAX } else { (1u128 << (8 * nb)) - 1 };
+    let bits = 128 - p.leading_zeros();
+    for i in 0..400 {
+        let v: u128 = match i % 8 {
+            0 => residues(p, r),
+            1 => p + r.below(5) as u128,
+            2 => p.wrapping_sub(1 + r.below(3) as u128),
+            3 => if bits < 128 { (p + (r.next_u128() % ((1u128 << bits) - p))).min(top) } else { p + (r.next_u128() % (u128::MAX - p)) },   // the gap [p, 2^bits)
+            4 => if bits < 128 { ((1u128 << bits) - 1 - r.below(3) as u128).min(top) } else { u128::MAX - r.below(3) as u128 },
+            5 => top - r.below(3) as u128,
+            6 => if bits < 128 { (1u128 << bits).min(top) } else { p },
+            _ => r.next_u128() & top,
+        };
+        let bytes = &v.to_le_bytes()[..nb];
+        let want = if v < p { Some(v) } else { None };
+        let a = <F as TryFrom<&[u8]>>::try_from(bytes).ok().map(|e: F| e.to_u128());
+        if a != want { fails.push(Fail { field: F::NAME, what: "TryFrom<&[u8]>".into(), input: hex_bytes(bytes), expected: format!("{:?}", want), actual: format!("{:?}", a) }); }
+        let b = F::from_random_bytes(bytes).map(|e| e.to_u128());
+        if b != want { fails.push(Fail { field: F::NAME, what: "from_random_bytes".into(), input: hex_bytes(bytes), expected: format!("{:?}", want), actual: format!("{:?}", b) }); }
+        let c = F::read_from_bytes(bytes).ok().map(|e| e.to_u128());
+        if c != want { fails.push(Fail { field: F::NAME, what: "read_from_bytes".into(), input: hex_bytes(bytes), expected: format!("{:?}", want), actual: format!("{:?}", c) }); }
+        // wrong lengths are refused
+        if <F as TryFrom<&[u8]>>::try_from(&bytes[..nb - 1]).is_ok() { fails.push(Fail { field: F::NAME, what: "TryFrom<&[u8]> accepts a short slice".into(), input: hex_bytes(&bytes[..nb - 1]), expected: "Err".into(), actual: "Ok".into() }); }
+    }
+}
+
 fn conv64<F: RefField + TryFrom<u64> + TryFrom<u128>>(r: &mut Rng, fails: &mut Vec<Fail>) {
     let p = F::P;
     for _ in 0..64 {
@@ -404,6 +436,9 @@ fn main() {
                 evals += falsify_field::<f128::BaseElement>(&mut r, n / 4 + 1, &mut fails, &prog, &|_, _, _, _, _| {});
                 conv64::<f64::BaseElement>(&mut r, &mut fails);
                 conv64::<f62::BaseElement>(&mut r, &mut fails);
+                conv_bytes::<f64::BaseElement>(&mut r, &mut fails);
+                conv_bytes::<f62::BaseElement>(&mut r, &mut fails);
+                conv_bytes::<f128::BaseElement>(&mut r, &mut fails);
                 (fails, evals)
             }, |cur| {
                 println!("{{\"field\":\"?\",\"what\":\"operation does not terminate (no progress for 5 s)\",\"input\":{},\"expected\":\"returns\",\"actual\":\"hang\"}}", jstr(&cur));
